@@ -32,13 +32,14 @@ META = {
                   "datetime (printer/reader on code-point lists), hence the text route equals the object route; decoding "
                   "never depends on the current language (all expressions, unconditional since repair 8586a6a); "
                   "eval(toSource(e)) rebuilds e EXACTLY (state and history), hence the same source and JSON again: text level "
-                  "parseSrc(toSource e) = progOf e for every expression whose lemmata/tag names contain no quote, backslash or "
-                  "line break and whose option values have a covered repr (SrcOK), evaluation level build(progOf e) = e when "
-                  "each constituent is of the current language and is what its own call history makes of its constructor "
+                  "parseSrc(toSource e) = progOf e for every lemma and tag name (escaped), lang= arguments included, when the "
+                  "root is of the current language and the option values have a covered repr (SrcOK), evaluation level "
+                  "build(progOf e) = e when each constituent is what its own call history makes of its constructor "
                   "(WFS); under a canonical history (CanonJ) the JSON round trip gives back the very same expression, hence the same "
                   "source. Each full-strength clause that the code violates has a _refuted theorem with a concrete witness "
-                  "(tn() without argument, DT(datetime), Q('say \"hi\"'), a backslash lemma, a repeated option) replayed on the "
-                  "real code by the harness.",
+                  "(tn() without argument, DT(datetime), a root of the other language, a repeated option) replayed on the real "
+                  "code by the harness; the former source witnesses (quote / backslash lemma, .own, .ord, missing lang=) are "
+                  "repaired (a4c65f5, 09cd540, b0f13e0, bf17f90) and the model follows the repaired code.",
     "level_note": "Trusted: Lean kernel; the hand-written model (Model/Expr, Json, ExprSource) tied to the code by the "
                   "correspondence only; A_abs (realization is a function of tree + props + lexicon entries: peng/taux sharing "
                   "is not modelled, the oracle compares realized texts on the implementation); that an expression built without "
@@ -908,8 +909,8 @@ def features(line, table):
     f = set()
     for n in nodes(prog):
         k = n["k"]
-        if n["lang"] != cur:
-            f.add("lang")
+        if n is prog and n["lang"] != cur:
+            f.add("lang")   # the language of the ROOT cannot be printed: the source is evaluated under the current one
         if k == "NO":
             f.add("NO")
             if isinstance(n["lemma"], str) and L.novalue(n["lang"], norm_lemma(n["lemma"])):
@@ -986,12 +987,9 @@ def adj_stable(np, L):
 # which clause failures each feature is known to explain: feature -> route -> aspects
 ANY = ("text", "json", "source")
 EXPLAINS = [
-    ("quote-lemma", {"source": ("err:SyntaxError", "text", "json", "source")}),
-    ("quote-tag", {"source": ("err:SyntaxError",)}),
     ("datetime", {"json-text": ("err:TypeError",), "source": ("err:NameError", "json"), "json": ("source",)}),
     ("rtime-str", {"json-text": ("err:TypeError",), "json": ("source",), "source": ()}),
-    ("cpprop-alias", {"source": ("err:AttributeError",)}),
-    ("NO-letters", {"source": ("err:AttributeError", "json", "text"), "json": ("json", "source", "text"),
+    ("NO-letters", {"source": ("json", "text"), "json": ("json", "source", "text"),
                     "json-text": ("json", "source", "text")}),
     ("lang", {"source": ANY}),
     ("adjorder", {"json": ANY, "json-text": ANY, "source": ANY}),
@@ -1063,10 +1061,8 @@ WITNESSES = [
      {"k": "root", "lang": "en", "term": "x", "deps": [], "calls": [["o", "tn", None]]}, "en", "json:json:noarg"),
     ("json_text_roundtrip_refuted",
      {"k": "DT", "lang": "en", "lemma": {"dt": [2024, 1, 5, 0, 0, 0]}, "calls": []}, "en", "json-text:err:TypeError:datetime"),
-    ("source_roundtrip_refuted",
-     {"k": "Q", "lang": "en", "lemma": 'say "hi"', "calls": []}, "en", "source:err:SyntaxError:quote-lemma"),
-    ("source_stable_refuted",
-     {"k": "Q", "lang": "en", "lemma": "tab\\there", "calls": []}, "en", "source:source:quote-lemma"),
+    ("source_roundtrip_refuted / source_stable_refuted",
+     {"k": "Q", "lang": "fr", "lemma": "x", "calls": []}, "en", "source:json:lang"),
     ("json_source_stable_refuted",
      {"k": "Q", "lang": "en", "lemma": "x", "calls": [["o", "cap", True], ["o", "cap", False]]}, "en", "json:source:noncanon"),
 ]
@@ -1178,6 +1174,9 @@ def run(ctx, total=None, profile=None):
     ctx.notes["constituent_kinds"] = dict(sorted(kinds.items()))
     ctx.notes["option_calls(kind/lang)"] = dict(sorted(optkinds.items()))
     ctx.notes["clause_failures_by_signature"] = dict(sorted(failcount.items()))
+    if hasattr(ctx, "fail_counts"):
+        for k, v in failcount.items():
+            ctx.fail_counts[k] = max(ctx.fail_counts.get(k, 0), v)
     table = get_table()
     wanted = [o["name"] for o in table["options"]] + table["optionListMethods"] + ["tag", "typ", "dOpt", "nat", "maje", "add", "add@pos"]
     missing = [w + "/" + l for w in wanted for l in ("en", "fr") if optkinds.get(w + "/" + l, 0) == 0]
